@@ -414,7 +414,17 @@ func (c *capture) GoString() string { return "capture{}" }
 func (c *capture) Parse(ctx *parseContext, parent reflect.Value) (out []reflect.Value, err error) {
 	defer ctx.printTrace(c)()
 	start := ctx.RawCursor()
+	outerMatchStart := ctx.matchStart
+	ctx.matchStart = -1
 	v, err := c.node.Parse(ctx, parent)
+	// The captured tokens start at the first token that was matched, not at elided tokens
+	// (eg. whitespace) that were skipped on the way to it.
+	if ctx.matchStart >= 0 {
+		start = ctx.matchStart
+	}
+	if outerMatchStart >= 0 {
+		ctx.matchStart = outerMatchStart
+	}
 	if v != nil {
 		ctx.Defer(ctx.Range(start, ctx.RawCursor()), parent, c.field, v)
 	}
@@ -445,6 +455,7 @@ func (r *reference) Parse(ctx *parseContext, parent reflect.Value) (out []reflec
 		return nil, nil
 	}
 	ctx.FastForward(cursor)
+	ctx.noteMatch(cursor)
 	return []reflect.Value{reflect.ValueOf(token.Value)}, nil
 }
 
@@ -472,6 +483,7 @@ func (l *literal) Parse(ctx *parseContext, parent reflect.Value) (out []reflect.
 	token, cursor := ctx.PeekAny(match)
 	if match(token) {
 		ctx.FastForward(cursor)
+		ctx.noteMatch(cursor)
 		return []reflect.Value{reflect.ValueOf(token.Value)}, nil
 	}
 	return nil, nil
@@ -503,6 +515,7 @@ func (n *negation) Parse(ctx *parseContext, parent reflect.Value) (out []reflect
 
 	// Just give the next token
 	next := ctx.Next()
+	ctx.noteMatch(ctx.RawCursor() - 1)
 	return []reflect.Value{reflect.ValueOf(next.Value)}, nil
 }
 
